@@ -181,3 +181,25 @@ Example C17i_refuted_before_fix :
   expand_unfixed shipped (lit "FILE_PART_MISSING") = Panic /\
   process_err_unfixed shipped_dcs (lit "PHONE_MIGRATE_X") ANone = Panic.
 Proof. vm_compute. repeat split; reflexivity. Qed.
+
+(* several clients, today's default list: a client that never configured DC x itself and
+   whose x is not in the default list gets "DC not found", whatever the other clients did *)
+Theorem C17i_unconfigured_per_client : forall h1 a0 h2 c x,
+  length (crun shipped_dcs [] h1) = c ->
+  dc_lookup x (own_sets c h2) = None -> ~ In x (List.map fst shipped_dcs) ->
+  observe (crun shipped_dcs [] (h1 ++ NewClient a0 :: h2)) c s_phone_migrate_x (AInt x) = Some (Ok NoSuchDC).
+Proof.
+  intros h1 a0 h2 c x Hl Hown Hd. rewrite (observe_migrate shipped_dcs h1 a0 h2 c x Hl), Hown.
+  apply dc_lookup_none in Hd. now rewrite Hd.
+Qed.
+Print Assumptions C17i_unconfigured_per_client.
+
+Theorem C17i_default_per_client : forall h1 a0 h2 c x addr,
+  length (crun shipped_dcs [] h1) = c ->
+  dc_lookup x (own_sets c h2) = None -> In (x, addr) shipped_dcs ->
+  observe (crun shipped_dcs [] (h1 ++ NewClient a0 :: h2)) c s_phone_migrate_x (AInt x) = Some (Ok (Switch addr)).
+Proof.
+  intros h1 a0 h2 c x addr Hl Hown Hin. rewrite (observe_migrate shipped_dcs h1 a0 h2 c x Hl), Hown.
+  destruct C17i_dc_keys_unique as [Hu _]. now rewrite (dc_lookup_unique x addr shipped_dcs Hu Hin).
+Qed.
+Print Assumptions C17i_default_per_client.
